@@ -265,13 +265,22 @@ def scenario(args):
         else:
             newv = spec['abs'] if spec.get('abs') is not None else max(0, lens[target] + spec['delta'])
             b[offs[target]:offs[target] + 3] = newv.to_bytes(3, 'big')
+            if spec.get('cut') and 3 <= newv < lens[target]:
+                # the section is really shortened: its last octets are removed from the stream and the shorter length is
+                # declared, so whatever the decoder reads beyond the declared end belongs to the next section (the
+                # content overruns the declared end by 1..7 bits when it does not end on an octet boundary)
+                del b[offs[target] + newv:offs[target] + lens[target]]
+                if spec['cut'] == 'total':
+                    b[4:7] = len(b).to_bytes(3, 'big')
         t = trailing_bytes(rng, rng.choice(['none', 'noise', 'noise']), b'')
         data = bytes(b) + t
         full_ok = target in ('total', 4)
         for info in ((False, True) if full_ok else (True,)):
             req, impl = dec_obs(data, k * ns, info)
             orc = None
-            if target != 'total' and target != 2 and newv * 8 < content_bits(spec, target) and not (info and target == 4 and newv >= 4):
+            # (a section 3 that is really cut is simply a shorter descriptor list: its content follows its declared length)
+            if target != 'total' and target != 2 and newv * 8 < content_bits(spec, target) and not (info and target == 4 and newv >= 4) \
+                    and not (spec.get('cut') and target == 3):
                 if 'err' not in impl:
                     orc = 'section %s declared %d octets, shorter than its %d content bits, decoded without error' % (
                         target, newv, content_bits(spec, target))
@@ -300,13 +309,16 @@ def scenarios(ctx):
                     for delta in ('zero', 0, 1, 2, 3, -1):
                         out.append(dict(kind='honour', ed=ed, k=k, sec2=s2, target=target, delta=delta))
     for ed in (2, 3, 4):
-        for k in (0, 1, 7, 8, 9, 16, 17, 33):
+        for k in (0, 1, 3, 7, 8, 9, 12, 16, 17, 21, 33):
             for s2 in (None, 11):
                 for target in (1, 2, 3, 4, 'total'):
                     if target == 2 and s2 is None:
                         continue
                     for delta in (-2, -1, 1, 2, 7):
                         out.append(dict(kind='mutate', ed=ed, k=k, sec2=s2, target=target, delta=delta))
+                        if delta < 0 and target != 'total':
+                            for cut in ('total', 'section'):
+                                out.append(dict(kind='mutate', ed=ed, k=k, sec2=s2, target=target, delta=delta, cut=cut))
                     if target != 'total':
                         for a in (0, 1, 3, 4, 6, 7, 70000):
                             out.append(dict(kind='mutate', ed=ed, k=k, sec2=s2, target=target, delta=0, abs=a))
@@ -314,7 +326,8 @@ def scenarios(ctx):
         for _ in range(6000):
             out.append(dict(kind=rng.choice(['recompute', 'recompute', 'mutate']), ed=rng.choice([2, 3, 4]), k=rng.randrange(0, 200),
                             sec2=rng.choice([None, '', rng.randrange(1, 90)]), trailing=rng.choice(trail),
-                            ns=rng.choice([1, 1, 2, 3]), target=rng.choice([1, 3, 4, 'total']), delta=rng.choice([-3, -1, 1, 2, 5])))
+                            ns=rng.choice([1, 1, 2, 3]), target=rng.choice([1, 3, 4, 'total']), delta=rng.choice([-3, -1, 1, 2, 5]),
+                            cut=rng.choice([None, 'total', 'section'])))
     return out
 
 
